@@ -159,11 +159,20 @@ package bscript
 //@   ensures[C15.pkh_recovered] (=> (and (not (nil? s)) (= err nil) (= (blen (old (bytes s))) 25) (= (bat (old (bytes s)) 0) 118) (= (bat (old (bytes s)) 1) 169) (= (bat (old (bytes s)) 2) 20)) (= (bytes r0) (bsub (old (bytes s)) 3 23)))
 
 // ---- BIP276 text encoding (C17): layout of the encoder (the decoder is a regular expression: bounded stand-in) ----
+// The property's field order (version, then network) is a `lemma`: an obligation of createBIP276 that callers do not
+// assume. On the unchanged tree it FAILS (the code writes the network first): known finding, see known_findings.json.
 //@ func bscript.createBIP276
 //@   bytes token
-//@   ensures[C17.layout_payload] (= (bstr r0) (bcat (bstr (. script Prefix)) (bcat (bstr ":") (bcat (bhex2 (. script Version)) (bcat (bhex2 (. script Network)) (bstr (bhex (old (bytes (. script Data))))))))))
+//@   lemma (= (bstr r0) (bcat (bstr (. script Prefix)) (bcat (bstr ":") (bcat (bhex2 (. script Version)) (bcat (bhex2 (. script Network)) (bstr (bhex (old (bytes (. script Data))))))))))
+//@   ensures[C17.layout_fields] (or (= (bstr r0) (bcat (bstr (. script Prefix)) (bcat (bstr ":") (bcat (bhex2 (. script Version)) (bcat (bhex2 (. script Network)) (bstr (bhex (old (bytes (. script Data)))))))))) (= (bstr r0) (bcat (bstr (. script Prefix)) (bcat (bstr ":") (bcat (bhex2 (. script Network)) (bcat (bhex2 (. script Version)) (bstr (bhex (old (bytes (. script Data)))))))))))
 //@   ensures[C17.layout_checksum] (= r1 (bhex (bsub (bsha256d (bstr r0)) 0 4)))
 //@ func bscript.EncodeBIP276
 //@   bytes token
 //@   ensures[C17.encode_range] (=> (or (= (. script Version) 0) (> (. script Version) 255) (= (. script Network) 0) (> (. script Network) 255)) (= result "ERROR"))
-//@   ensures[C17.encode_layout] (=> (and (<= 1 (. script Version)) (<= (. script Version) 255) (<= 1 (. script Network)) (<= (. script Network) 255)) (= (bstr result) (bcat (bcat (bstr (. script Prefix)) (bcat (bstr ":") (bcat (bhex2 (. script Version)) (bcat (bhex2 (. script Network)) (bstr (bhex (old (bytes (. script Data))))))))) (bstr (bhex (bsub (bsha256d (bcat (bstr (. script Prefix)) (bcat (bstr ":") (bcat (bhex2 (. script Version)) (bcat (bhex2 (. script Network)) (bstr (bhex (old (bytes (. script Data)))))))))) 0 4))))))
+//@   ensures[C17.encode_layout] (=> (and (<= 1 (. script Version)) (<= (. script Version) 255) (<= 1 (. script Network)) (<= (. script Network) 255)) (or (= (bstr result) (bcat (bcat (bstr (. script Prefix)) (bcat (bstr ":") (bcat (bhex2 (. script Version)) (bcat (bhex2 (. script Network)) (bstr (bhex (old (bytes (. script Data))))))))) (bstr (bhex (bsub (bsha256d (bcat (bstr (. script Prefix)) (bcat (bstr ":") (bcat (bhex2 (. script Version)) (bcat (bhex2 (. script Network)) (bstr (bhex (old (bytes (. script Data)))))))))) 0 4))))) (= (bstr result) (bcat (bcat (bstr (. script Prefix)) (bcat (bstr ":") (bcat (bhex2 (. script Network)) (bcat (bhex2 (. script Version)) (bstr (bhex (old (bytes (. script Data))))))))) (bstr (bhex (bsub (bsha256d (bcat (bstr (. script Prefix)) (bcat (bstr ":") (bcat (bhex2 (. script Network)) (bcat (bhex2 (. script Version)) (bstr (bhex (old (bytes (. script Data)))))))))) 0 4)))))))
+//@ func bscript.DecodeBIP276
+//@   bytes token
+//@   ensures[C17.decode_result] (= (= err nil) (not (nil? r0)))
+//@ func bscript.ValidateAddress
+//@   bytes token
+//@   ensures[C17.validate_result] (=> r0 (= r1 nil))
